@@ -18,6 +18,8 @@
     reset | alloc ip =key | dump                 allocation table (ip ↦ key); dump -> dump:ip=key,… sorted by ip
     release ip =appType =ns =app =pod =pool inLister running   one entry of a ReleaseIPs request
                                                  -> released | free | other | running | notreleasable
+    request k (ip =appType =ns =app =pod =pool inLister running)*k   one ReleaseIPs request with k entries
+                                                 -> unreleased:ip,ip,…  (the handler's `unreleased` list, in its order)
   Anything else -> bad-op.
 -/
 import Galaxy.Model.Keys
@@ -97,6 +99,24 @@ def insertSorted (p : Nat × Str) : List (Nat × Str) → List (Nat × Str)
 
 def sortByIp (l : List (Nat × Str)) : List (Nat × Str) := l.foldr insertSorted []
 
+def parseBool (s : String) : Option Bool :=
+  if s = "true" then some true else if s = "false" then some false else none
+
+/-- groups of 8 tokens: ip =appType =ns =app =pod =pool inLister running -/
+def parseEntries : List String → Option (List (Entry × Bool × Bool))
+  | [] => some []
+  | ip :: at_ :: ns :: app :: pod :: pool :: inl :: run :: rest =>
+    match ip.toNat?, dec at_, dec ns, dec app, dec pod, dec pool, parseBool inl, parseBool run, parseEntries rest with
+    | some ip, some at_, some ns, some app, some pod, some pool, some inl, some run, some r =>
+      some ((⟨ip, ns, app, pod, pool, at_⟩, inl, run) :: r)
+    | _, _, _, _, _, _, _, _, _ => none
+  | _ => none
+
+def flagOf (l : List (Entry × Bool × Bool)) (sel : Bool × Bool → Bool) (e : Entry) : Bool :=
+  match l.find? (fun x => x.1 = e) with
+  | some x => sel x.2
+  | none => false
+
 def step (a : Alloc) (line : String) : Alloc × String :=
   match line.splitOn " " with
   | "fmt" :: ns :: name :: pool :: n :: rest =>
@@ -174,6 +194,14 @@ def step (a : Alloc) (line : String) : Alloc × String :=
         (r.1, showOut r.2)
       else (a, "bad-op")
     | _, _, _, _, _, _ => (a, "bad-op")
+  | "request" :: k :: rest =>
+    match k.toNat?, parseEntries rest with
+    | some k, some l =>
+      if l.length = k then
+        let r := releaseRequest a (flagOf l (·.1)) (flagOf l (·.2)) (l.map (·.1))
+        (r.1, "unreleased:" ++ joinWith "," (r.2.map toString))
+      else (a, "bad-op")
+    | _, _ => (a, "bad-op")
   | _ => (a, "bad-op")
 
 end Galaxy.Drv.Keys
